@@ -582,6 +582,14 @@ class SplitRunner:
             diff = cmp_split_view(m[1], res[1])
             if diff:
                 again.append((d, case, v0, sl, res, rep, diff))
+        known = vlib.load_known_findings()
+        pending_patch = any(f.get("property") == "C19" and f.get("key") in ("split-minor-loss-duplicated", "split-closed-pipe-opened-by-control")
+                            for f in known.get("findings", [])) and not os.environ.get("C19_NO_COPYING")
+        if again and not pending_patch:  # the two findings are recorded as fixed: only the repaired model is accepted
+            for (d, case, v0, sl, res, rep, diff) in again:
+                broken.append(Broken("correspondence", "M9 split result", "case %s\n%s" % (case, diff)))
+                self.chk.save_corpus(dict(kind="split", net=d, case=case))
+            again = []
         if again:
             # the code before fixes/C19-split-neutral-new-pipe.patch copies minor loss and status to the new pipe (the two recorded
             # hydraulic findings): such a result must equal the `splitCopying` model exactly
@@ -956,6 +964,20 @@ class SkelRunner:
         if ops is None:
             broken.append(Broken("correspondence", "M9 skeletonize trace", "mutation trace is not a sequence of trim/series/parallel steps: %s" % (tr.ev[:12],)))
             return
+        # the pass structure of `run` (model: cyclePass / runLoop): trims, then series merges, then parallel merges, junctions in
+        # junction_name_list order inside a pass; `max_cycles = k` allows k + 1 passes; switched-off operations never occur
+        jpos = {n[0]: i for i, n in enumerate(v0["nodes"])}
+        cyc, last = (1 if ops else 0), (-1, -1)
+        for o in ops:
+            key = ({"t": 0, "s": 1, "p": 2}[o[0]], jpos.get(o[1], -1) if o[0] != "p" else 0)
+            if key < last or (key == last and o[0] != "p"):
+                cyc += 1
+            last = key
+        ctx.count("skel:passes-with-steps:%s" % min(cyc, 4))
+        off = [k for k, on in (("t", cfg["branch"]), ("s", cfg["series"]), ("p", cfg["parallel"])) if not on and any(o[0] == k for o in ops)]
+        if off or (cfg["max_cycles"] is not None and cyc > cfg["max_cycles"] + 1):
+            broken.append(Broken("correspondence", "M9 runLoop / cyclePass vs _Skeletonize.run",
+                                 "steps %s need %d passes; max_cycles=%s options %s" % (ops[:20], cyc, cfg["max_cycles"], (cfg["branch"], cfg["series"], cfg["parallel"]))))
         mkeys = [(k, list(smap[k])) for k in orig_names if k in smap]
         head = "%s | %s | %s | %s" % (fmt_snodes(v0["nodes"]), fmt_slinks(v0["links"]), " ".join(jx), " ".join(px))
         self.lines.append("skelrun | %s | %s | %s" % (head, _fr(cfg["thr"]), ";".join(",".join(o) for o in ops)))
@@ -1031,27 +1053,37 @@ class C19(Check):
     extra_targets = ["WntrModel.Model.Morph"]
     manifest = dict(
         category="proof",
-        text="Lean theorems over the model of _split_or_break_pipe and of the three _Skeletonize operations, for every network state, pipe, "
-        "fraction in [0,1] (0 and 1 included), either end, vertex list, threshold, exclusion list and every sequence of skeletonization steps: "
-        "the split succeeds (split_total) and returns splitResult, whose two parts keep the total length (split_preserves_length), every other "
-        "node/pump/valve/pipe (split_preserves_others), the original's attributes (split_old_pipe_keeps), the new pipe has no check valve "
-        "(split_new_pipe_no_cv), the new junctions sit at the interpolated elevation and at arc length f of the vertex polyline "
-        "(split_new_junctions, junctionElevation_interp, crossing_eq_pointAt), vertices are cut into a prefix and the remaining suffix "
-        "(split_vertices_partition), break differs from split only in the junctions; series head loss is additive (series_headloss_additive); "
-        "the two stated exceptions to 'hydraulics unchanged' are kept as full statement + counterexample + _partial: the copied minor loss "
-        "(SplitHydraulicsUnchanged) and the control-less copy of a CLOSED status (SplitStatusUnchanged); the cycle loop of run terminates "
-        "within junctionCount+1 passes for every max_cycles (run_terminates); skeleton_invariants: tanks, reservoirs, pumps, valves and "
-        "control-referenced / excluded elements retained, demand entries permuted (skeleton_total_demand_conserved), the skeleton map partitions "
-        "the original node set over retained nodes. The tie is a differential run of the real split_pipe / break_pipe / skeletonize against "
-        "the Lean driver plus the statement evaluated on the real results (to_dict, expected_demand, WNTRSimulator before/after a split).",
+        text="Lean theorems over the model of _split_or_break_pipe and of _Skeletonize, for every network state, pipe, fraction in [0,1] "
+        "(0 and 1 included), either end, vertex list, threshold, exclusion list, iteration order and max_cycles: the split succeeds "
+        "(split_total) and returns splitResult, whose two parts keep the total length (split_preserves_length), the minor loss "
+        "(split_preserves_minor), every other node/pump/valve/pipe (split_preserves_others) and the original's attributes "
+        "(split_old_pipe_keeps); the new pipe has no check valve, no minor loss and is open (split_new_pipe_no_cv); the new junctions sit "
+        "at the interpolated elevation and at arc length f of the vertex polyline (split_new_junctions, junctionElevation_interp, "
+        "crossing_eq_pointAt, split_junction_on_polyline), on the end node for f = 1 and on the vertex when f falls on one, zero-length "
+        "segments included (pointAt_total, pointAt_vertex, split_junction_at_one, split_junction_on_vertex); vertices are cut into a prefix "
+        "and the remaining suffix (split_vertices_partition); break differs from split only in the junctions; the head loss and the "
+        "open/closed state of the two parts in series equal the original's at every flow, control schedule and time "
+        "(split_hydraulics_unchanged, split_status_unchanged; the statements for the code that copies minor loss and status are kept with "
+        "their counterexamples). Skeletonize: skeleton_invariants for every step sequence and skeleton_result_independent_properties for "
+        "the whole run under EVERY junction / neighbour / edge-key order (termination by run_terminates): tanks, reservoirs, pumps, valves "
+        "and control-referenced / excluded elements retained, demand entries permuted (skeleton_total_demand_conserved), the skeleton map "
+        "a partition of the original nodes over retained nodes; skeleton_outputs_depend_on_order shows what does depend on the order (map "
+        "representative, receiver of the demand, name and direction of the merged pipe). Merged pipes: series_merge_resistance (exact when "
+        "e*b = 1), series_merge_resistance_general + code_series_exponents_inconsistent (0.54*1.85 = 0.999: the code's series formula is "
+        "off by A^0.001*S^0.999, measured <= 0.94 %), parallel_merge_conductance (exact for any exponents), powLaws_real, "
+        "series_merge_status_counterexample. The tie is a differential run of the real split_pipe / break_pipe / skeletonize / "
+        "_series_merge_properties / _parallel_merge_properties against the Lean driver plus the statement evaluated on the real results "
+        "(to_dict, expected_demand, WNTRSimulator before/after a split).",
         design_ref="DESIGN.md §5 C19, §4 M9",
         note="trusted: Lean kernel, axioms {propext, Classical.choice, Quot.sound}; the correspondence harness. Modelled, not verified: binary64 "
         "arithmetic (the model computes in Q; the Euclidean segment lengths of a vertex polyline enter as given non-negative numbers computed by "
         "the harness with the code's own formula), copy.deepcopy (return_copy is compared on the implementation only), the order in which "
         "_Skeletonize visits junctions and networkx lists neighbours (the theorems hold for EVERY step sequence; the observed sequence is "
         "replayed), the hydraulic run inside _Skeletonize.__init__ (its result is not used by the code), the merged pipes' roughness formula. "
-        "'Splitting leaves the hydraulics unchanged' is a theorem only for the head-loss bookkeeping of the split pipe; the network-level claim is "
-        "the simulation comparison. Outside the statement (answered alike by model and code): a pipe between two reservoirs (AttributeError), "
+        "'Splitting leaves the hydraulics unchanged' is a theorem for the head loss and the open/closed state of the split pipe; the "
+        "network-level claim is the simulation comparison. The split model follows fixes/C19-split-neutral-new-pipe.patch (new pipe open, no "
+        "minor loss); a result that equals the `splitCopying` model (the code before that patch) is accepted by the tie and shows up as the "
+        "two recorded findings. The iteration orders of dict / networkx are parameters (`Order`), not derived from the source. Outside the statement (answered alike by model and code): a pipe between two reservoirs (AttributeError), "
         "self-loop pipes, equal names for the two break junctions.",
         technique="Lean 4 proof (invariant preserved by every step, induction over the step sequence) + differential run against the Lean driver",
     )
@@ -1166,7 +1198,7 @@ class C19(Check):
     def correspondence(self, ctx):
         failures, broken = [], []
         if ctx.quick:
-            self._run(ctx, failures, broken, n_split=16, n_skel=60, n_hyd=25, thorough=False)
+            self._run(ctx, failures, broken, n_split=12, n_skel=55, n_hyd=25, thorough=False)
         else:
             self._run(ctx, failures, broken, n_split=150, n_skel=800, n_hyd=250, thorough=True)
         return failures, broken
